@@ -154,3 +154,18 @@ func Replay[C any](gen func(*Ctx) C, vector []int) (C, bool) {
 	c := &Ctx{prefix: vector, strict: true}
 	return runBody(c, gen)
 }
+
+// Stride keeps one leaf in n, decided by a hash of the choices taken so far (stateless, so that a
+// recorded vector replays to the same decision). Call it after all choices of the case were made.
+func (c *Ctx) Stride(n int) {
+	if n <= 1 {
+		return
+	}
+	h := uint64(1469598103934665603)
+	for _, v := range c.Choices {
+		h = (h ^ uint64(v+1)) * 1099511628211
+	}
+	if h%uint64(n) != 0 {
+		c.Skip()
+	}
+}
